@@ -286,6 +286,15 @@ class Schema:
 
     # ----------------------------------------------------------- hooks with defaults
     def isinstance_special(self, eng, sv, clsname, st):
+        if clsname == "Iterator":
+            # typing.Iterator / collections.abc.Iterator: generators are iterators, the built-in collections are not
+            if sv.k == "gen":
+                return z3.BoolVal(True)
+            if sv.k in ("seq", "list", "tuple", "set", "dict", "mapseq", "bytes", "blob", "str", "range", "none", "int", "bool"):
+                return z3.BoolVal(False)
+            if sv.k == "ref" and sv.cls in eng.prog.classes:
+                return z3.BoolVal(bool(eng.prog.classes[sv.cls].lookup("__next__")))
+            raise Unsupported("isinstance(%s, Iterator)" % sv.k)
         if clsname in ("Sequence", "Collection", "Mapping") and sv.k in ("seq", "list", "tuple", "set", "dict", "mapseq"):
             return z3.BoolVal({"Sequence": sv.k in ("seq", "list", "tuple"), "Collection": True,
                                "Mapping": sv.k in ("dict", "mapseq")}[clsname])
